@@ -298,6 +298,8 @@ def run_e2e(ctx: Ctx, cases, n_model):
         ctx.count(f"e2e:nx={len(mc['logx'])}"); ctx.count(f"e2e:ny={len(mc['logy'])}"); ctx.count(f"e2e:T={data['nper']}")
         ctx.count(f"e2e:deviation={c['deviation']}"); ctx.count(f"e2e:rescale={c['rescale']}")
         ctx.count(f"e2e:tv_std={data['std_e_t'] is not None}"); ctx.count(f"e2e:logs={any(mc['logx']) or any(mc['logy'])}")
+        ctx.count(f"e2e:unit_root={mc.get('unit') is not None}")
+        if not any(data["mask"][-1]): ctx.count("e2e:forecast_tail")
         if any(not any(r) for r in data["mask"]): ctx.count("e2e:has_empty_period")
         ctx.nontriv(("e2e", json.dumps(mc, sort_keys=True), json.dumps(data["mask"]), c["deviation"], c["rescale"]))
         if i < 2:
@@ -306,16 +308,19 @@ def run_e2e(ctx: Ctx, cases, n_model):
         oracle_e2e(ctx, c, m, span, out, info)
         if i < n_model:
             lc, maps = ks.lean_case_of_e2e(c, m)
-            if lc["xi"] is None:
-                lines.append("kfr" + ks.encode(lc)[2:]); keep.append((c, lc, maps, span, out, info))
+            lines.append("kfr" + ks.encode(lc)[2:]); keep.append((c, lc, maps, span, out, info))
     replies = ctx.model("C03", lines)
     if replies is None:
         return
     for (c, lc, maps, span, out, info), r in zip(keep, replies):
         ctx.streams_compared["e2e-model"] = ctx.streams_compared.get("e2e-model", 0) + 1
-        mo = ks.decode(r, False)
+        mo = ks.decode(r, lc["xi"] is not None)
         if "err" in mo:
-            ctx.disagree("e2e-model", c, "ok", mo["err"]); continue
+            if mo["err"] == "err:singular" and lc["xi"] is not None:
+                ctx.count("e2e-model:unknown_init_singular_gls_skipped")
+            else:
+                ctx.disagree("e2e-model", c, "ok", mo["err"])
+            continue
         condF = max([float(np.linalg.cond(F)) for F in mo["F"] if F.size] + [1.0])
         if condF > ks.COND_MAX:
             ctx.count("e2e-model:ill_conditioned_skipped"); continue
@@ -344,8 +349,32 @@ def run_e2e(ctx: Ctx, cases, n_model):
             ctx.disagree("e2e-model-identities", c, "identities proved in Props", f"mid={mo['mid']} csum={mo['csum']}")
 
 
+def run_variants(ctx: Ctx, cases):
+    """several parameter variants in one model object: every variant against the joint Gaussian of ITS parameters"""
+    for c in cases:
+        ctx.evaluations += 1
+        nv = len(c["mcs"])
+        cvs = [{"mc": mc, "data": c["data"], "deviation": False, "rescale": False} for mc in c["mcs"]]
+        if any(ks.e2e_batch(cv).condS() > 1e8 for cv in cvs):
+            ctx.count("variants:degenerate_joint_distribution_skipped"); continue
+        try:
+            m, db, span, out, info = ks.run_variants(c)
+        except Exception as e:
+            fail(ctx, "variants-raises", {"stream": "variants", "case": c}, repr(e)[:300]); continue
+        ctx.count(f"variants:nv={nv}")
+        ctx.nontriv(("variants", json.dumps(c["mcs"], sort_keys=True), json.dumps(c["data"]["mask"])))
+        before = len(ctx.failures)
+        for v in range(nv):
+            out_v, info_v = ks.slice_variant(out, info, v, nv, span)
+            oracle_e2e(ctx, cvs[v], m, span, out_v, info_v)
+        for f in ctx.failures[before:]:
+            if f["case"].get("stream") == "e2e":
+                f["case"] = {"stream": "variants", "case": c}; f["site"] = f["site"].replace("e2e-", "variants-")
+
+
 def run_config(ctx: Ctx, cases):
-    """the updated moments do not depend on which other outputs are requested"""
+    """which output steps are requested / stored must not change any reported number: the likelihood of a call that stores nothing
+    (`neg_log_likelihood`), the smoother alone, the update step without the smoother"""
     for c in cases:
         ctx.evaluations += 1
         cw = {"stream": "config", "case": c}
@@ -355,15 +384,33 @@ def run_config(ctx: Ctx, cases):
             m, db, span, out, info = ks.run_e2e(c)
         except Exception as e:
             continue
+        kw = dict(stds_from_data=c["data"]["std_e_t"] is not None, deviation=c["deviation"], rescale_variance=c["rescale"])
+        nx = len(c["mc"]["logx"])
+        keys = [ks.var_key(f"x{j}", c["mc"]["logx"][j]) for j in range(nx)]
+        ctx.count(f"config:unit_root={c['mc'].get('unit') is not None}")
+        # (1) nothing stored
         try:
-            out2 = m.kalman_filter(db, span, return_=("predict", "update"), stds_from_data=c["data"]["std_e_t"] is not None,
-                                   deviation=c["deviation"], rescale_variance=c["rescale"])
+            nll = m.neg_log_likelihood(db, span, **kw)
+            if not ks.close([nll], [info["neg_log_likelihood"]], 1e-10):
+                fail(ctx, "likelihood-depends-on-requested-output", cw,
+                     f"neg_log_likelihood()={nll!r} but kalman_filter(...) info={info['neg_log_likelihood']!r}")
         except Exception as e:
-            fail(ctx, "update-without-smooth", cw, f"kalman_filter(return_=('predict','update')) raises {e!r}"[:300]); continue
-        for j in range(len(c["mc"]["logx"])):
-            key = ks.var_key(f"x{j}", c["mc"]["logx"][j])
-            if not ks.close(ks.series_values(out2["update_med"], key, span), ks.series_values(out["update_med"], key, span), 1e-12):
-                fail(ctx, "update-without-smooth", cw, f"update_med[{key}] depends on return_")
+            fail(ctx, "likelihood-depends-on-requested-output", cw, f"neg_log_likelihood raises {e!r}"[:300])
+        # (2) single steps
+        for ret, step in ((("smooth",), "smooth"), (("predict", "update"), "update"), (("update",), "update"), (("predict",), "predict")):
+            site = "update-without-smooth" if (step == "update" and c["mc"].get("unit") is None) else "output-depends-on-requested-steps"
+            try:
+                out2, info2 = m.kalman_filter(db, span, return_=ret, return_info=True, **kw)
+            except Exception as e:
+                fail(ctx, site, cw, f"kalman_filter(return_={ret}) raises {e!r}"[:300]); continue
+            if not ks.close([info2["neg_log_likelihood"]], [info["neg_log_likelihood"]], 1e-10):
+                fail(ctx, "likelihood-depends-on-requested-output", cw,
+                     f"return_={ret}: likelihood {info2['neg_log_likelihood']!r} vs {info['neg_log_likelihood']!r}")
+            for key in keys:
+                for kind in ("_med", "_std"):
+                    a = ks.series_values(out2[step + kind], key, span); b = ks.series_values(out[step + kind], key, span)
+                    if not ks.close(a, b, 1e-10):
+                        fail(ctx, site, cw, f"return_={ret}: {step}{kind}[{key}] = {a.tolist()} but {b.tolist()} when all steps are requested")
 
 
 # ---------------------------------------------------------------------------------------
@@ -385,6 +432,8 @@ def run_payload(ctx: Ctx, payload, with_model=True):
         run_e2e(ctx, [inner], 1 if with_model else 0)
     elif stream == "config":
         run_config(ctx, [inner])
+    elif stream == "variants" or (isinstance(inner, dict) and "mcs" in inner):
+        run_variants(ctx, [inner])
     elif isinstance(inner, dict) and "mc" in inner:
         run_e2e(ctx, [inner], 1 if with_model else 0)
         run_config(ctx, [inner])
@@ -394,7 +443,9 @@ def run(ctx: Ctx):
     ctx.rule = ("direct stream: random systems n<=5 states, <=3 observables, T<=12 with dyadic entries, time-varying stds, shock means, "
                 "random missing masks, plus every mask of one system per (ny,T) with ny*T <= 6 (quick) / 10 (thorough); unknown-init stream: "
                 "same with one unit root and Xi; e2e: random linear Simultaneous models (1-3 variables, lags <=2, log-variables, 1-3 "
-                "observables) with simulated data, masks, time-varying stds from data, deviation and rescale_variance flags. "
+                "observables) with simulated data, masks incl. forecast tails, time-varying stds from data, deviation and rescale_variance "
+                "flags; the same with one random-walk (unit-root) variable under fixed_unknown (GLS oracle); config: every case re-run "
+                "through neg_log_likelihood and with single output steps. "
                 "distinct_nontrivial = distinct (sizes, mask, flags) cases with T>1 and at least one observation (direct) / distinct "
                 "(model, mask, flags) (e2e)")
     for p, payload in corpus_payloads():
@@ -412,7 +463,12 @@ def run(ctx: Ctx):
     rng = ctx.rng.fork("e2e")
     cases = [ks.gen_e2e_case(rng.fork(i), 8 if ctx.quick else 12) for i in range(ctx.n(40, 600))]
     run_e2e(ctx, cases, ctx.n(10, 60))
-    run_config(ctx, cases[:ctx.n(3, 20)])
+    rng = ctx.rng.fork("e2e-unit-root")
+    ucases = [ks.gen_e2e_case(rng.fork(i), 8 if ctx.quick else 12, unit_root=True) for i in range(ctx.n(16, 200))]
+    run_e2e(ctx, ucases, ctx.n(4, 30))
+    run_config(ctx, cases[:ctx.n(4, 25)] + ucases[:ctx.n(6, 40)])
+    rng = ctx.rng.fork("variants")
+    run_variants(ctx, [ks.gen_variant_case(rng.fork(i)) for i in range(ctx.n(8, 100))])
 
 
 def search(ctx: Ctx, seeds):
@@ -427,7 +483,9 @@ def search(ctx: Ctx, seeds):
     run_direct(ctx, [ks.gen_system(rng.fork(("x", i).__repr__()), unknown_init=True) for i in range(200)], "direct-unknown-init", with_model=False)
     cases = [ks.gen_e2e_case(rng.fork(("e", i).__repr__()), 10) for i in range(300)]
     run_e2e(ctx, cases, 0)
-    run_config(ctx, cases[:10])
+    ucases = [ks.gen_e2e_case(rng.fork(("u", i).__repr__()), 10, unit_root=True) for i in range(100)]
+    run_e2e(ctx, ucases, 0)
+    run_config(ctx, cases[:10] + ucases[:20])
 
 
 def replay(ctx: Ctx, payload):
